@@ -5,6 +5,7 @@
 -/
 import NextestModel.Lemmas.Dispatcher
 import NextestModel.Thm.C08
+import NextestModel.Lemmas.SchedLive
 import NextestModel.Thm.C07
 namespace NextestModel.C02
 open NextestModel.Dispatcher
@@ -91,6 +92,87 @@ theorem uncancelled_complete_counterexample :
         [.poll, .complete 0, .complete 2, .complete 3, .complete 4] = some s' ∧
       s'.ended = true ∧ s'.queued = 1 := by
   refine ⟨_, rfl, ?_, ?_⟩ <;> decide
+
+section liveness
+open NextestModel.Sched NextestModel.SchedLive
+
+/-- `runTrace` (the run with the created futures collected) and `C08.runOps` are the same runs -/
+theorem runTrace_state (s : SState) (ops : List Op) : C08.runOps s ops = (runTrace s ops).map (·.1) := by
+  induction ops generalizing s with
+  | nil => rfl
+  | cons o os ih =>
+    simp only [C08.runOps, runTrace]
+    cases hstep : s.step o with
+    | none => rfl
+    | some x =>
+      obtain ⟨s1, st⟩ := x
+      simp only [ih s1]
+      cases runTrace s1 os with
+      | none => rfl
+      | some y => rfl
+
+private theorem init_inv (maxW : Nat) (gm : List Nat) (items : List Item) (wg : Nat → Nat)
+    (hu : ∀ it ∈ items, ∀ g, it.group = some g → it.weight = wg g) : Inv wg (SState.init maxW gm items) := by
+  have hq : ∀ g, (SState.init maxW gm items).queues.getD g [] = [] := by
+    intro g
+    simp only [SState.init, List.getD_eq_getElem?_getD, List.getElem?_map]
+    cases gm[g]? <;> rfl
+  refine ⟨⟨C08.init_ok maxW gm items, C08.group_init_ok maxW gm items, C08.queues_init_ok maxW gm items, by simp [SState.init],
+    hu, ?_, ?_, ?_⟩, ?_⟩
+  · intro g it hit; rw [hq g] at hit; cases hit
+  · intro r hr; simp [SState.init] at hr
+  · intro r hr; simp [SState.init] at hr
+  · intro g hne; exact absurd (hq g) hne
+
+private theorem init_waiting (maxW : Nat) (gm : List Nat) (items : List Item) : waiting (SState.init maxW gm items) = items := by
+  have : (gm.map fun _ => ([] : List Item)).flatten = [] := by
+    rw [List.flatten_eq_nil_iff]; intro l hl; simp at hl; exact hl.2
+  simp [waiting, SState.init, this]
+
+/-- **Every selected test's future is created exactly once, and the run cannot end before all of them were** — for every
+    test list, thread count, group configuration and EVERY order of completions, *provided all members of a test group have
+    the same threads-required* (`hu`; without it the statement is false: `uncancelled_complete_counterexample`, defect F7).
+    (1) conservation: at any point the futures created so far plus the tests still waiting (in the stream or parked in a group
+    queue) are exactly the selected tests, each once — nothing is created twice, nothing is lost;
+    (2) when the stream ends (`ended`: nothing pending, nothing running) every selected test's future has been created and
+    no test is left parked;
+    (3) the scheduler never idles while a test waits: after any operation, if nothing is running the stream has ended. -/
+theorem uncancelled_complete_partial (maxW : Nat) (gm : List Nat) (items : List Item) (wg : Nat → Nat)
+    (hu : ∀ it ∈ items, ∀ g, it.group = some g → it.weight = wg g)
+    (ops : List Op) (s' : SState) (started : List Item)
+    (h : runTrace (SState.init maxW gm items) ops = some (s', started)) :
+    (started ++ (s'.pending ++ s'.queues.flatten)).Perm items ∧
+    (s'.ended = true → started.Perm items ∧ s'.queued = 0) ∧
+    (ops ≠ [] → s'.running = [] → s'.ended = true) := by
+  obtain ⟨hinv, hperm, hprog⟩ := runTrace_live wg ops _ s' started (init_inv maxW gm items wg hu) h
+  rw [init_waiting] at hperm
+  refine ⟨hperm, ?_, ?_⟩
+  · intro hend
+    simp only [SState.ended, Bool.and_eq_true, List.isEmpty_iff] at hend
+    have hq := queues_empty_of_idle wg s' hinv hend.2
+    refine ⟨?_, queued_zero_of_flatten_nil s' hq⟩
+    simpa [waiting, hend.1, hq] using hperm
+  · intro hne hrun
+    simp only [SState.ended, Bool.and_eq_true, List.isEmpty_iff]
+    refine ⟨?_, hrun⟩
+    apply Classical.byContradiction
+    intro hp
+    exact hprog hne hp hrun
+
+-- non-vacuity: test-threads 4, group 0 (max-threads 2) with three members of threads-required 2 (uniform), two ungrouped
+-- tests; two members are parked and later released; the run ends with all five futures created
+example : (runTrace (SState.init 4 [2] [⟨0, 2, some 0⟩, ⟨1, 2, some 0⟩, ⟨2, 1, none⟩, ⟨3, 2, some 0⟩, ⟨4, 1, none⟩])
+      [.poll, .complete 2, .complete 0, .complete 4, .complete 1, .complete 3]).map (fun x => (x.1.ended, x.1.queued, x.2.map (·.id)))
+    = some (true, 0, [0, 2, 4, 1, 3]) := by decide
+
+/-- the F7 witness is outside the hypothesis: its group has members of threads-required 1 and 2 -/
+example : ¬ ∃ wg : Nat → Nat, ∀ it ∈ ([⟨0, 1, some 0⟩, ⟨1, 2, some 0⟩] : List Item), ∀ g, it.group = some g → it.weight = wg g := by
+  intro ⟨wg, h⟩
+  have h1 := h ⟨0, 1, some 0⟩ (by simp) 0 rfl
+  have h2 := h ⟨1, 2, some 0⟩ (by simp) 0 rfl
+  simp at h1 h2; omega
+
+end liveness
 
 /-! ## One unit: `run_test_instance` reports at most one final result, for exactly the attempts it made -/
 
